@@ -142,6 +142,19 @@ func genDecision(t *rapid.T, label string) harness.Decision {
 		return harness.Decision{Kind: "smtp", Code: 550, Msg: "scripted refusal\nwith a second line\nand a third"}
 	case 4:
 		return harness.Decision{Kind: "smtp", Code: 452, Enh: [3]int{4, 2, 2}, Msg: "scripted 452\ntwo lines"}
+	case 5:
+		// text a reply cannot carry as it is: whatever the server makes of it,
+		// what it writes must still be well-formed replies (C04)
+		pieces := []string{"text", " ", "\r", "\n", "\r\n", "\x00", "\t", "\x7f", "\x1b[31m", "é", "\xff", "250 ", "250-", "-", "\n\n", "5.1.1 ", strings.Repeat("long ", 150)}
+		var sb strings.Builder
+		for i, n := 0, rapid.IntRange(1, 6).Draw(t, label+"_odd_n"); i < n; i++ {
+			sb.WriteString(rapid.SampledFrom(pieces).Draw(t, label+"_odd"))
+		}
+		code := rapid.SampledFrom([]int{550, 451, 421, 554}).Draw(t, label+"_odd_code")
+		if rapid.Bool().Draw(t, label+"_odd_plain") {
+			return harness.Decision{Kind: "plain", Msg: sb.String()}
+		}
+		return harness.Decision{Kind: "smtp", Code: code, Msg: sb.String()}
 	}
 	return harness.Decision{}
 }
@@ -271,6 +284,10 @@ func genHistory(t *rapid.T, maxLen int, garbageCtl bool) hCase {
 		switch op {
 		case "greet", "helo", "greet-wrong":
 			cmd.Arg = "host" + rapid.SampledFrom(names).Draw(t, "name")
+			if garbageCtl && rapid.IntRange(0, 5).Draw(t, "odd_name") == 0 {
+				// the name is echoed in the reply and handed to the backend
+				cmd.Arg = rapid.SampledFrom([]string{"[1.2.3.4]", "[IPv6:::1]", "h\x01st", "h\xffst", "höst", "a_b", "-", "h\x7f", "x.", "h\tst"}).Draw(t, "odd_host")
+			}
 		case "mail", "mail-bad", "mail-binary", "mail-size-over":
 			cmd.Arg = "s" + rapid.SampledFrom(names).Draw(t, "name")
 		case "rcpt", "rcpt-bad":
